@@ -52,6 +52,9 @@ Thm/Common/Loops.vos Thm/Common/Loops.vok Thm/Common/Loops.required_vos: Thm/Com
 Thm/Common/PatchFacts.vo Thm/Common/PatchFacts.glob Thm/Common/PatchFacts.v.beautified Thm/Common/PatchFacts.required_vo: Thm/Common/PatchFacts.v Core/Base.vo Core/Prog.vo Py/Sig.vo Sem/Interp.vo Sem/InterpFacts.vo Sem/StmtFacts.vo Sem/Model.vo Gen/HasPatcher.vo
 Thm/Common/PatchFacts.vio: Thm/Common/PatchFacts.v Core/Base.vio Core/Prog.vio Py/Sig.vio Sem/Interp.vio Sem/InterpFacts.vio Sem/StmtFacts.vio Sem/Model.vio Gen/HasPatcher.vio
 Thm/Common/PatchFacts.vos Thm/Common/PatchFacts.vok Thm/Common/PatchFacts.required_vos: Thm/Common/PatchFacts.v Core/Base.vos Core/Prog.vos Py/Sig.vos Sem/Interp.vos Sem/InterpFacts.vos Sem/StmtFacts.vos Sem/Model.vos Gen/HasPatcher.vos
+Thm/Common/PatchBracket.vo Thm/Common/PatchBracket.glob Thm/Common/PatchBracket.v.beautified Thm/Common/PatchBracket.required_vo: Thm/Common/PatchBracket.v Core/Base.vo Core/Prog.vo Py/Sig.vo Sem/Interp.vo Sem/InterpFacts.vo Sem/StmtFacts.vo Sem/Model.vo Gen/HasPatcher.vo Thm/Common/PatchFacts.vo
+Thm/Common/PatchBracket.vio: Thm/Common/PatchBracket.v Core/Base.vio Core/Prog.vio Py/Sig.vio Sem/Interp.vio Sem/InterpFacts.vio Sem/StmtFacts.vio Sem/Model.vio Gen/HasPatcher.vio Thm/Common/PatchFacts.vio
+Thm/Common/PatchBracket.vos Thm/Common/PatchBracket.vok Thm/Common/PatchBracket.required_vos: Thm/Common/PatchBracket.v Core/Base.vos Core/Prog.vos Py/Sig.vos Sem/Interp.vos Sem/InterpFacts.vos Sem/StmtFacts.vos Sem/Model.vos Gen/HasPatcher.vos Thm/Common/PatchFacts.vos
 Thm/C01/Gate.vo Thm/C01/Gate.glob Thm/C01/Gate.v.beautified Thm/C01/Gate.required_vo: Thm/C01/Gate.v Core/Base.vo Core/Prog.vo Py/Sig.vo Sem/Interp.vo Sem/InterpFacts.vo Sem/StmtFacts.vo Sem/Model.vo Gen/Validators.vo Gen/HasPatcher.vo Gen/Contracts.vo Thm/Common/Loops.vo
 Thm/C01/Gate.vio: Thm/C01/Gate.v Core/Base.vio Core/Prog.vio Py/Sig.vio Sem/Interp.vio Sem/InterpFacts.vio Sem/StmtFacts.vio Sem/Model.vio Gen/Validators.vio Gen/HasPatcher.vio Gen/Contracts.vio Thm/Common/Loops.vio
 Thm/C01/Gate.vos Thm/C01/Gate.vok Thm/C01/Gate.required_vos: Thm/C01/Gate.v Core/Base.vos Core/Prog.vos Py/Sig.vos Sem/Interp.vos Sem/InterpFacts.vos Sem/StmtFacts.vos Sem/Model.vos Gen/Validators.vos Gen/HasPatcher.vos Gen/Contracts.vos Thm/Common/Loops.vos
@@ -70,3 +73,12 @@ Thm/C03/Except.vos Thm/C03/Except.vok Thm/C03/Except.required_vos: Thm/C03/Excep
 Props/C03.vo Props/C03.glob Props/C03.v.beautified Props/C03.required_vo: Props/C03.v Core/Base.vo Core/Prog.vo Py/Sig.vo Sem/Interp.vo Sem/InterpFacts.vo Sem/Model.vo Gen/Validators.vo Gen/HasPatcher.vo Gen/Contracts.vo Sem/Scenario.vo Thm/Common/Loops.vo Thm/Common/PatchFacts.vo Thm/C03/Except.vo
 Props/C03.vio: Props/C03.v Core/Base.vio Core/Prog.vio Py/Sig.vio Sem/Interp.vio Sem/InterpFacts.vio Sem/Model.vio Gen/Validators.vio Gen/HasPatcher.vio Gen/Contracts.vio Sem/Scenario.vio Thm/Common/Loops.vio Thm/Common/PatchFacts.vio Thm/C03/Except.vio
 Props/C03.vos Props/C03.vok Props/C03.required_vos: Props/C03.v Core/Base.vos Core/Prog.vos Py/Sig.vos Sem/Interp.vos Sem/InterpFacts.vos Sem/Model.vos Gen/Validators.vos Gen/HasPatcher.vos Gen/Contracts.vos Sem/Scenario.vos Thm/Common/Loops.vos Thm/Common/PatchFacts.vos Thm/C03/Except.vos
+Thm/C08/FrameCore.vo Thm/C08/FrameCore.glob Thm/C08/FrameCore.v.beautified Thm/C08/FrameCore.required_vo: Thm/C08/FrameCore.v Core/Base.vo Core/Prog.vo Py/Sig.vo Sem/Interp.vo Sem/InterpFacts.vo Sem/StmtFacts.vo Sem/Model.vo Gen/HasPatcher.vo Thm/Common/PatchFacts.vo Thm/Common/PatchBracket.vo
+Thm/C08/FrameCore.vio: Thm/C08/FrameCore.v Core/Base.vio Core/Prog.vio Py/Sig.vio Sem/Interp.vio Sem/InterpFacts.vio Sem/StmtFacts.vio Sem/Model.vio Gen/HasPatcher.vio Thm/Common/PatchFacts.vio Thm/Common/PatchBracket.vio
+Thm/C08/FrameCore.vos Thm/C08/FrameCore.vok Thm/C08/FrameCore.required_vos: Thm/C08/FrameCore.v Core/Base.vos Core/Prog.vos Py/Sig.vos Sem/Interp.vos Sem/InterpFacts.vos Sem/StmtFacts.vos Sem/Model.vos Gen/HasPatcher.vos Thm/Common/PatchFacts.vos Thm/Common/PatchBracket.vos
+Thm/C08/Frame.vo Thm/C08/Frame.glob Thm/C08/Frame.v.beautified Thm/C08/Frame.required_vo: Thm/C08/Frame.v Core/Base.vo Core/Prog.vo Py/Sig.vo Sem/Interp.vo Sem/InterpFacts.vo Sem/StmtFacts.vo Sem/Model.vo Gen/Validators.vo Gen/HasPatcher.vo Gen/Contracts.vo Thm/Common/PatchFacts.vo Thm/Common/PatchBracket.vo Thm/C08/FrameCore.vo
+Thm/C08/Frame.vio: Thm/C08/Frame.v Core/Base.vio Core/Prog.vio Py/Sig.vio Sem/Interp.vio Sem/InterpFacts.vio Sem/StmtFacts.vio Sem/Model.vio Gen/Validators.vio Gen/HasPatcher.vio Gen/Contracts.vio Thm/Common/PatchFacts.vio Thm/Common/PatchBracket.vio Thm/C08/FrameCore.vio
+Thm/C08/Frame.vos Thm/C08/Frame.vok Thm/C08/Frame.required_vos: Thm/C08/Frame.v Core/Base.vos Core/Prog.vos Py/Sig.vos Sem/Interp.vos Sem/InterpFacts.vos Sem/StmtFacts.vos Sem/Model.vos Gen/Validators.vos Gen/HasPatcher.vos Gen/Contracts.vos Thm/Common/PatchFacts.vos Thm/Common/PatchBracket.vos Thm/C08/FrameCore.vos
+Props/C08.vo Props/C08.glob Props/C08.v.beautified Props/C08.required_vo: Props/C08.v Core/Base.vo Core/Prog.vo Py/Sig.vo Sem/Interp.vo Sem/InterpFacts.vo Sem/Model.vo Gen/Validators.vo Gen/HasPatcher.vo Gen/Contracts.vo Thm/Common/PatchFacts.vo Thm/Common/PatchBracket.vo Thm/C08/FrameCore.vo Thm/C08/Frame.vo
+Props/C08.vio: Props/C08.v Core/Base.vio Core/Prog.vio Py/Sig.vio Sem/Interp.vio Sem/InterpFacts.vio Sem/Model.vio Gen/Validators.vio Gen/HasPatcher.vio Gen/Contracts.vio Thm/Common/PatchFacts.vio Thm/Common/PatchBracket.vio Thm/C08/FrameCore.vio Thm/C08/Frame.vio
+Props/C08.vos Props/C08.vok Props/C08.required_vos: Props/C08.v Core/Base.vos Core/Prog.vos Py/Sig.vos Sem/Interp.vos Sem/InterpFacts.vos Sem/Model.vos Gen/Validators.vos Gen/HasPatcher.vos Gen/Contracts.vos Thm/Common/PatchFacts.vos Thm/Common/PatchBracket.vos Thm/C08/FrameCore.vos Thm/C08/Frame.vos
